@@ -26,7 +26,7 @@ def gen_plan(rng, tier: str, idx: int) -> dict:
     split = rng.randint(1, p - 1) if (p >= 2 and rng.random() < 0.4 and kernel in ("rw", "iwls", "mh_sym")) else None
     return {"kernel": kernel, "family": fam, "n": rng.randint(6, 25), "p": p, "tau": rng.choice([0.7, 1.5, 3.0]), "sigma": rng.choice([0.5, 1.0, 2.0]),
             "data_seed": rng.randrange(10**6), "xscale": rng.choice([0.5, 1.0]), "split": split, "liesel": (kernel in ("rw", "iwls") and split is None and rng.random() < 0.6),
-            "step": rng.choice([0.2, 0.5, 0.8, 1.0, 1.5]), "chains": rng.choice([128, 256]) if tier == "quick" else rng.choice([256, 512, 1024]),
+            "step": rng.choice([0.2, 0.5, 0.8, 1.0, 1.5, 1.8]), "chains": rng.choice([128, 256]) if tier == "quick" else rng.choice([256, 512, 1024]),
             "iters": rng.choice([10, 20]) if tier == "quick" else rng.choice([20, 50]), "seed": rng.randrange(2**31),
             "epoch_type": rng.choice([3, 4])}
 
